@@ -1,0 +1,31 @@
+//go:build verif
+
+package rtmp
+
+import (
+	"fmt"
+
+	"github.com/q191201771/lal/pkg/base"
+)
+
+// Verification hook for property C14 (access control). Only built with -tags verif.
+
+// VerifC14SetStream puts a fresh ServerSession into the state it has when doPublish / doPlay
+// hand it to the observer: tcUrl and app from connect, stream name and raw query from the
+// publish / play command, url, base type.
+func (s *ServerSession) VerifC14SetStream(tcUrl, appName, streamName, rawQuery string, isPub bool) {
+	s.tcUrl = tcUrl
+	s.appName = appName
+	s.streamName = streamName
+	s.rawQuery = rawQuery
+	s.streamNameWithRawQuery = streamName
+	if rawQuery != "" {
+		s.streamNameWithRawQuery += "?" + rawQuery
+	}
+	s.url = fmt.Sprintf("%s/%s", s.tcUrl, s.streamNameWithRawQuery)
+	if isPub {
+		s.sessionStat.SetBaseType(base.SessionBaseTypePubStr)
+	} else {
+		s.sessionStat.SetBaseType(base.SessionBaseTypeSubStr)
+	}
+}
